@@ -117,7 +117,8 @@ var props = map[string]propCfg{
 		rule: "each run: a tape-generated plan of make/cancel/sleep requests over <=3 timer ids issued by 1-3 requester tasks plus handler-issued requests, executed on the real timers code under the serial scheduler with the simulated clock; distinct = distinct (operation history, schedule) event hashes; non-trivial = at least one timer fired or was cancelled and at least two tasks interleaved",
 		parts: []part{
 			{name: "mcrew-timers", engine: "mcrew", race: true, quick: 1500, thorough: 60000},
+			{name: "sio-timers", engine: "sio", race: true, quick: 600, thorough: 30000},
 		},
-		comps: []string{"real: cmd/mcrew/timers.go (instrumented copy)", "simulated: clock (testing/synctest), goroutine scheduling (serial scheduler), map order", "stub: emitter (harness records firings and issues handler requests)"},
+		comps: []string{"real: cmd/mcrew/timers.go (instrumented copy)", "simulated: clock (testing/synctest), goroutine scheduling (serial scheduler), map order", "stub: mcrew emitter (harness records firings and issues handler requests)", "real: sio.Crew.Loop, timers machine (sio/timersspec.go), sio.Timers and TimerEntry goroutines, handler machine in ECMAScript; harness = coupling (in/out channels) and a consumer that renders each Result as JSON"},
 	},
 }
